@@ -199,6 +199,13 @@ def generate(seed: int, config: str, tier: str) -> Dict[str, Any]:
             doc[rng.choice(["a", "s", "b"])] = odd
         else:
             doc.insert(rng.randrange(len(doc) + 1), odd)
+    if rng.random() < 0.06 and isinstance(doc, (dict, list)):
+        # NaN / Infinity: not JSON proper, but what json.loads accepts and json.dumps writes
+        nf = rng.choice(["__NaN__", "__Infinity__", "__-Infinity__"])
+        if isinstance(doc, dict):
+            doc[rng.choice(["a", "n", "b"])] = nf
+        else:
+            doc.insert(rng.randrange(len(doc) + 1), nf)
     if invalid_expr and cmd != "patch":
         expr = _mutate_expr(rng, cmd, expr)
     elif cmd != "patch" and rng.random() < 0.05:
@@ -220,6 +227,8 @@ def generate(seed: int, config: str, tier: str) -> Dict[str, Any]:
         "expr": expr,
         "expr_src": rng.choice(["inline", "inline", "file"]) if cmd != "patch" else "n/a",
         "expr_suffix": rng.choice(["", "\n", "  \n", "\n\n", " "]),
+        # an expression file may hold the query on several lines (white space is insignificant in queries)
+        "expr_multiline": rng.choice([0, 0, 0, 1, 2]) if cmd == "path" else 0,
         "doc": doc,
         "doc_style": rng.choice(["compact", "indent", "noascii"]),
         "doc_src": rng.choice(["file", "file", "stdin"]),
@@ -232,16 +241,35 @@ def generate(seed: int, config: str, tier: str) -> Dict[str, Any]:
     return {"property": PROPERTY, "config": config, "seed": seed, "knobs": {}, "plan": plan}
 
 
+NONFINITE = {'"__NaN__"': "NaN", '"__Infinity__"': "Infinity", '"__-Infinity__"': "-Infinity"}
+
+
 def _dump(v: Any, style: str) -> bytes:
     if style == "indent":
-        return json.dumps(v, indent=1).encode()
-    if style == "noascii":
-        return json.dumps(v, ensure_ascii=False).encode("utf-8", "surrogatepass")
-    return json.dumps(v, separators=(",", ":")).encode()
+        b = json.dumps(v, indent=1).encode()
+    elif style == "noascii":
+        b = json.dumps(v, ensure_ascii=False).encode("utf-8", "surrogatepass")
+    else:
+        b = json.dumps(v, separators=(",", ":")).encode()
+    # the plan is strict JSON; the non-finite number literals Python's json accepts are kept as marker strings
+    for marker, lit in NONFINITE.items():
+        b = b.replace(marker.encode(), lit.encode())
+    return b
 
 
 FAMILY = (JSONPathError, JSONPointerError, JSONPatchError)
 DECODE = (json.JSONDecodeError, UnicodeDecodeError)
+
+
+def _file_text(plan: Dict[str, Any]) -> str:
+    """What the -r expression file holds."""
+    expr = plan["expr"]
+    ml = plan.get("expr_multiline", 0)
+    if ml == 1:
+        expr = "\n" + expr  # a blank first line
+    elif ml == 2 and expr[:1] in ("$", "^") and expr[1:2] in (".", "["):
+        expr = expr[0] + "\n" + expr[1:]  # the query continues on the next line
+    return expr + plan["expr_suffix"]
 
 
 def _stream(doc_src: str, data: bytes) -> Any:
@@ -258,7 +286,7 @@ def oracle(plan: Dict[str, Any], doc_bytes: bytes, patch_bytes: bytes) -> Tuple[
     ud = "-u" in plan["sopts"] or "--uri-decode" in plan["sopts"]
     expr = plan["expr"]
     if plan["expr_src"] == "file":
-        expr = (expr + plan["expr_suffix"]).strip()
+        expr = _file_text(plan).strip()
     try:
         if cmd == "path":
             env = jsonpath.JSONPathEnvironment(unicode_escape=ue, well_typed="--no-type-checks" not in plan["sopts"])
@@ -373,11 +401,11 @@ def execute(spec: Dict[str, Any], ctx: Ctx) -> None:
     if cmd == "patch":
         files["patch.json"] = patch_bytes
     elif plan["expr_src"] == "file":
-        files["expr.txt"] = (plan["expr"] + plan["expr_suffix"]).encode("utf-8")
+        files["expr.txt"] = _file_text(plan).encode("utf-8")
         ctx.count(f"probe.r_used.{cmd}")
     if plan["out"] == "file":
         ctx.count("probe.o_sink")
-    if cmd != "patch" and (plan["expr"] + (plan["expr_suffix"] if plan["expr_src"] == "file" else "x")).strip() == "":
+    if cmd != "patch" and (_file_text(plan) if plan["expr_src"] == "file" else plan["expr"] + "x").strip() == "":
         ctx.count("probe.empty_expression")
     argv = _argv(plan)
     debug = "--debug" in plan["gopts"]
@@ -482,7 +510,7 @@ def shrink_plan(plan: Dict[str, Any]) -> Iterator[Dict[str, Any]]:
         p["faults"] = fl
         yield p
     for key, simple in (("gopts", []), ("sopts", []), ("expr_src", "inline"), ("doc_src", "file"), ("out", "stdout"),
-                        ("doc_style", "compact"), ("expr_suffix", ""), ("subprocess", False), ("pad", 0)):
+                        ("doc_style", "compact"), ("expr_suffix", ""), ("subprocess", False), ("pad", 0), ("expr_multiline", 0)):
         if plan.get(key, simple) != simple and not (key == "expr_src" and plan["cmd"] == "patch"):
             p = dict(plan)
             p[key] = simple
